@@ -3,7 +3,7 @@ from ..core import Script, Rng
 from ..stage import LineStage, replay_line
 from .common import *
 
-ARTEFACTS = ["G1-consts", "G2-rs-portable"]
+ARTEFACTS = ["G1-consts", "G2-rs-portable", "G3b-regions"]
 RULE = ("reader histories: a root state (chunk root or parent root, any mode, or merge_subtrees_root_xof) then 1-25 ops from "
         "{fill n, read n, setpos p, seek start/cur/end v, pos, clone}; positions from the boundary set {0,1,31,32,63,64,65, "
         "2^32*64 +- d, 2^38 +- d, 2^63, 2^64-1-k}; sizes {0..130, 1023..1025, 64j, 64j+-1, <= 40000}; reads keep p+n <= 2^64-1; "
@@ -15,7 +15,7 @@ M64 = (1 << 64) - 1
 
 
 def positions(rng):
-    base = [0, 1, 31, 32, 63, 64, 65, 127, 128, (1 << 32) * 64, (1 << 38), 1 << 63, M64 - 1, M64 - 64, M64 - 200, M64]
+    base = [0, 1, 31, 32, 63, 64, 65, 127, 128, (1 << 32) * 64, (1 << 38), 1 << 37, 1 << 63, M64 - 1, M64 - 64, M64 - 200, M64]
     p = rng.choice(base) + rng.choice([0, 0, 1, -1, 63, 64, -64, -63, 17])
     return min(max(p, 0), M64)
 
@@ -89,9 +89,10 @@ def history(rng, plat, nops):
 
 def boundary_grid(rng, plat, nmax=24):
     """whole-block reads of n blocks starting j blocks before the 2^32-th block (byte 2^38), every 1 <= j <= n <= nmax, and
-    the same around block 2^32 * 3 and near the last block; exercises every lane / tail position of xof_many at a counter carry"""
+    the same around block 2^32 * 3 and block 2^31 (byte 2^37: the sign bit of the low counter word, which the SIMD kernels'
+    compare-based carry has to get right); exercises every lane / tail position of xof_many at a counter carry"""
     out = []
-    for base in [1 << 38, 3 << 38]:
+    for base in [1 << 38, 3 << 38, 1 << 37]:
         ops = [f"P plat {plat}", f"H new h {mode_tok(rng)}", f"H upd h {pat(rng.choice([0, 1, 1025, 5000]), rng)}", "H xof h x"]
         for n in range(1, nmax + 1):
             for j in range(0, n + 1):
